@@ -84,11 +84,12 @@ impl FrameBuilder {
 }
 
 // ---- ghost model of one request: the CAS writer, the store calls and the request body ----
-pub enum AxEv { CasCommit(Integrity, Seq<u8>), Append(Frame), InsertFrame(Frame) }
+pub enum AxEv { CasCommit(Integrity, Seq<u8>), Append(Frame), InsertFrame(Frame), RegisterCtx(u128) }
 pub struct Ax {
     pub ghost body: Seq<Seq<u8>>,     // data chunks the request body will still yield
     pub ghost written: Seq<u8>,       // bytes given to the open CAS writer
     pub ghost log: Seq<AxEv>,
+    pub ghost stored: Map<u128, (Seq<char>, u128)>,   // id -> (topic, context) of the frames already in the store
 }
 pub open spec fn flat(chunks: Seq<Seq<u8>>) -> Seq<u8> decreases chunks.len() {
     if chunks.len() == 0 { Seq::empty() } else { flat(chunks.drop_last()) + chunks.last() }
@@ -320,6 +321,12 @@ fn import_parse_and_insert(store: &Store, bytes: Bytes, Tracked(ax): Tracked<&mu
         r == Ok::<Resp, Error>(Resp::Ok200) ==> (decode_frame(bytes_of(&bytes)) matches Some(f) && f.ttl != Some(TTL::Ephemeral)), //# api.import.pre.P1_not_ephemeral
         // P3: xs.context frames only in the zero context (C07)
         r == Ok::<Resp, Error>(Resp::Ok200) ==> (decode_frame(bytes_of(&bytes)) matches Some(f) && (is_ctx_topic(&f) ==> id_u128(f.context_id) == 0)), //# api.import.pre.P3_ctx_frames_in_zero_context
+        // P2: an id already in the store keeps its (topic, context), otherwise a stale index entry stays behind (C05, C06)
+        r == Ok::<Resp, Error>(Resp::Ok200) ==> (decode_frame(bytes_of(&bytes)) matches Some(f) && (old(ax).stored.contains_key(id_u128(f.id))
+            ==> old(ax).stored[id_u128(f.id)] == (f.topic@, id_u128(f.context_id)))), //# api.import.pre.P2_same_id_same_topic_and_context
+        // P4: an imported xs.context frame registers its context (the usable contexts are a function of the stored frames, C07)
+        r == Ok::<Resp, Error>(Resp::Ok200) ==> (decode_frame(bytes_of(&bytes)) matches Some(f) && (is_ctx_topic(&f)
+            ==> exists|i: int| old(ax).log.len() <= i < final(ax).log.len() && final(ax).log[i] == AxEv::RegisterCtx(id_u128(f.id)))), //# api.import.pre.P4_registers_context
 {
     proof { axiom_fmt_req(); }
 //@@ epilogue
@@ -343,15 +350,18 @@ pub assume_specification<T, E> [Option::<Result<T, E>>::transpose] (o: Option<Re
     ensures r == (match o { Some(Ok(x)) => Ok::<Option<T>, E>(Some(x)), Some(Err(e)) => Err::<Option<T>, E>(e), None => Ok::<Option<T>, E>(None) });
 //@@ slice file=src/api.rs fn=handle_stream_append name=meta_header_str
 //@@ from: parts .headers .get("xs-meta")
-//@@ through: .transpose() .unwrap()
+//@@ through: .transpose()
+//@@ extend_if_next: .unwrap()
+//@@ extend_if_next: .expect(
 //@@ closure_spec: .map( ==> -> (o: Result<&str, ToStrError>) ensures o is Ok <==> visible_ascii($1)
 //@@ header
-fn meta_header_str(parts: &Parts) -> (r: Option<&str>)
+fn meta_header_str(parts: &Parts)
 {
-    // obligation: the body below cannot panic for ANY header value (api_ops.meta_header_str.body)
-    let r =
+    // obligation: evaluating the header expression cannot panic for ANY header value, i.e. an un-decodable header is
+    // handled as a value (the 400 path), not by unwrap() (obligation api_ops.meta_header_str.body)
+    let _r =
 //@@ epilogue
-    ; r
+    ;
 }
 //@@ end
 
